@@ -275,7 +275,10 @@ def pmap(modname, fname, cfgs, tier, nproc=None, serial=False):
     ctx = mp.get_context("spawn")
     with ProcessPoolExecutor(max_workers=nproc, mp_context=ctx) as ex:
         futs = {ex.submit(_worker, modname, fname, c, tier): c for c in cfgs}
+        t0 = time.time()
         for f in as_completed(futs):
+            if os.environ.get("VERIF_PROGRESS"):
+                print(f"[progress] {fname} {time.time() - t0:.0f}s {futs[f]}", file=sys.stderr, flush=True)
             try:
                 out.extend(f.result())
             except BaseException as e:  # noqa
